@@ -280,8 +280,18 @@ def body_history(case):
     sizes = [len(b) for b in hist]
     if len(set(sizes)) < len(sizes):
         labels.add("repeated_size")
+    bad = case.get("bad", [])
     for step, rows in enumerate(hist):
         u = np.array(rows, dtype=np.float64).T.copy()
+        if step >= 1 and step - 1 < len(bad):
+            # a call that is refused must leave the object describing the previous batch, completely
+            with cut("queries after a refused throw"):
+                before = gc.snapshot_throw(shared, s_list, WITH_INTEGRAL)
+                if gc.bad_throw(shared, u, bad[step - 1]):
+                    after = gc.snapshot_throw(shared, s_list, WITH_INTEGRAL)
+                    for key in before:
+                        require(after[key] == before[key], f"after a refused throw ({bad[step - 1]}) {key} no longer describes the batch thrown before it (batch sizes {sizes})")
+                    labels.add("after_refused_throw")
         with cut(f"throw #{step} on a reused object"):
             shared.throw(u.copy())
             if step % 2 == 1 or len(hist) <= 2:
@@ -293,6 +303,9 @@ def body_history(case):
                 gc.snapshot_throw(other, s_list, WITH_INTEGRAL)
                 labels.add("second_object_interleaved")
             a = gc.snapshot_throw(shared, s_list, WITH_INTEGRAL)
+            again = gc.snapshot_throw(shared, s_list, WITH_INTEGRAL)  # reading is idempotent
+        for key in a:
+            require(again[key] == a[key], f"step {step} (batch sizes {sizes}): reading {key} a second time from the same throw gives another answer")
         with cut("throw on a fresh object"):
             fresh = RegionGeom(conf)
             fresh.throw(u.copy())
@@ -345,7 +358,7 @@ SUBCHECKS = [
     ),
     SubCheck(
         "history",
-        st.fixed_dictionaries({"cfg": gc.geom_config(), "batches": gc.batches(), "s": st.just([0.0])}),
+        st.fixed_dictionaries({"cfg": gc.geom_config(), "batches": gc.batches(), "s": st.just([0.0]), "bad": st.lists(st.sampled_from(gc.BAD_THROWS), max_size=3)}),
         body_history,
         lambda labels: "repeated_size" in labels and "kept" in labels,
         {"quick": 400, "thorough": 20000},
